@@ -288,6 +288,9 @@ func (ft *funcTr) mapIndex(x *ast.IndexExpr) ([]pre, string) {
 
 // isCommaOkMap: e is m[k] used for its two results on an association-list map.
 func (ft *funcTr) isCommaOkMap(e ast.Expr) bool {
+	if ft.isCommaOkRefMap(e) { // segfail.go
+		return true
+	}
 	x, ok := ast.Unparen(e).(*ast.IndexExpr)
 	if !ok || !ft.t.cfg.AssocMaps {
 		return false
